@@ -84,4 +84,7 @@ def obligations(tier, rng):
                       cls=cls, max_paths=50000, wall=1500))
         for tol in ('0', '1', '1/4'):
             out.append(ob('C13', 'counter', '%s/P=1s/unit=None/n=2/tol=%s' % (cls, tol), n=2, period=1, punit='s', unit=None, cls=cls, tol=tol))
-    return out
+    res_ = out
+    from .. import core as _core
+    res_ = res_ + _core.make_twins(res_, [('online:update/P=1s/unit=None/n=2/tol=sym', 'since')]) + _core.make_forkmode(res_, [])
+    return res_
